@@ -1245,9 +1245,13 @@ fn execute_match(
                     converted_base,
                 },
         } => {
+            // the buyer receives the contract's base denomination, which has its own marker type
+            let is_converted_base_restricted_marker =
+                is_restricted_marker(&deps.querier, converted_base.denom.clone());
+
             response = add_transfer(
                 response,
-                is_base_restricted_marker.to_owned(),
+                is_converted_base_restricted_marker,
                 execute_size.into(),
                 converted_base.to_owned().denom,
                 bid_order.owner.to_owned(),
